@@ -1,13 +1,15 @@
+#[cfg(not(sonic_rs_verif))]
+use std::sync::atomic::AtomicPtr;
 use std::{
     borrow::Cow,
     fmt::{self, Debug, Display},
     hash::Hash,
     str::from_utf8_unchecked,
-    sync::{
-        atomic::{AtomicPtr, Ordering},
-        Arc,
-    },
+    sync::{atomic::Ordering, Arc},
 };
+
+#[cfg(sonic_rs_verif)]
+use crate::verif_hooks::ShimAtomicPtr as AtomicPtr;
 
 use faststr::FastStr;
 
